@@ -46,7 +46,7 @@ class Obs:
     """Observation of one case on one backend."""
     __slots__ = ("backend", "exc", "exc_msg", "exc_at", "columns", "names", "rows", "dtypes",
                  "ast_coq", "export_exc", "export_exc_msg", "ser_error", "n_markers", "meta",
-                 "cache_coq", "schema_coq", "steps_coq", "l3", "l3_error")
+                 "cache_coq", "schema_coq", "steps_coq", "l3", "l3_error", "pl3")
 
     def __init__(self, backend):
         self.backend = backend
@@ -61,10 +61,11 @@ class Obs:
         self.steps_coq = []      # [(prev ast, verb node on prev ast, real decision)] for the subquery L2
         self.l3 = None           # (query, labels, scope) of the real SqlImpl.compile_ast as Gallina (sqlcompile.py)
         self.l3_error = None
+        self.pl3 = None          # (select, partition_by, name_in_df, schema) of the real Polars compile_ast
 
     def to_json(self):
         return {k: getattr(self, k) for k in self.__slots__
-                if k not in ("ast_coq", "cache_coq", "schema_coq", "steps_coq", "l3")}
+                if k not in ("ast_coq", "cache_coq", "schema_coq", "steps_coq", "l3", "pl3")}
 
 
 def observe(case, backend, l2_steps=False) -> Obs:
@@ -119,6 +120,14 @@ def observe(case, backend, l2_steps=False) -> Obs:
         o.schema_coq = ser.schema_to_coq(ser.ast_sources(tbl._ast, []), um)
     except (ser.SerError, Exception) as ex:  # noqa: BLE001
         o.ser_error = f"{type(ex).__name__}: {ex}"
+    if backend == "polars" and o.ast_coq is not None and o.ser_error is None:
+        try:
+            import sqlcompile
+            o.pl3 = sqlcompile.real_polars(tbl, um)
+        except (KeyboardInterrupt, SystemExit):
+            raise
+        except BaseException as ex:  # noqa: BLE001
+            o.l3_error = f"{type(ex).__name__}: {str(ex)[:200]}"
     if backend == "sqlite" and o.ast_coq is not None and o.ser_error is None:
         try:
             import sqlcompile
